@@ -51,7 +51,7 @@ type PipeDef struct {
 	Where string `json:"where"`
 	// Match[i]: does source i satisfy From (known by construction of From)
 	Match []bool `json:"match"`
-	// FKind: "" accepts everything, "K": msg contains "K"
+	// FKind: "" accepts everything, "K": msg contains "K", "E": fields:env = "x" (env is also a tag of every source)
 	FKind string `json:"fkind"`
 }
 
@@ -1270,6 +1270,7 @@ type gen struct {
 	r    *Rng
 	ts   int64
 	nmsg int
+	fk   string // filter kind of the scenario's pipe: "" | "K" (msg contains "K") | "E" (fields:env = "x")
 }
 
 func (g *gen) event(fkind string) Ev {
@@ -1289,6 +1290,19 @@ func (g *gen) event(fkind string) Ev {
 		fl = append(fl, [2]string{"f", fmt.Sprintf("%d", g.r.Intn(3))})
 		if g.r.Chance(1, 3) {
 			fl = append(fl, [2]string{"g", "v" + fmt.Sprintf("%d", g.r.Intn(9))})
+		}
+	}
+	if g.fk == "E" {
+		// the filter names a field that is also a tag of every source: it must see the event's OWN fields only
+		switch g.r.Intn(3) {
+		case 0:
+			fl = append(fl, [2]string{"env", "x"})
+			keep = true
+		case 1:
+			fl = append(fl, [2]string{"env", "z"})
+			keep = false
+		default:
+			keep = false // no field env of its own (the source's tag env=x / env=y is not the event's field)
 		}
 	}
 	return Ev{Ts: g.ts, Msg: msg, Flds: fl, Keep: keep}
@@ -1326,6 +1340,9 @@ func mkPipe(r *Rng, srcs [][][2]string, fkind string) PipeDef {
 	p := PipeDef{Name: pipeName(), FKind: fkind, Match: make([]bool, len(srcs))}
 	if fkind == "K" {
 		p.Where = `msg contains "K"`
+	}
+	if fkind == "E" {
+		p.Where = `fields:env = "x"`
 	}
 	switch r.Intn(4) {
 	case 0:
@@ -1366,7 +1383,8 @@ func genScenario(r *Rng, stream string) *Scenario {
 	sc.Sources = mkSources(r, ns)
 	fkind := ""
 	if stream == "filter" {
-		fkind = "K"
+		fkind = r.PickStr("K", "E")
+		g.fk = fkind
 	}
 	sc.Pipes = append(sc.Pipes, mkPipe(r, sc.Sources, fkind))
 	wave := func(first bool) Step {
